@@ -319,7 +319,15 @@ def invalid_declarations():
         Sector(o, 'GOV'); tick(); sd.Household(o, 'HH'); tick(); sd.FixedMarginBusiness(o, 'BUS'); tick(); sd.TaxFlow(f, 'TF', taxrate=.2); tick(); Market(o, 'GOOD'); tick(); Market(o, 'LAB'); tick()
         sd.MoneyMarket(f); m.MaxTime = 1; tick(); m.main()
 
-    scen = [('financial-market-without-issuer:money', money_no_issuer, True), ('financial-market-without-issuer:deposits', deposit_no_issuer, True),
+    def deposit_two_issuers(tick, box):
+        # two regions of one currency zone, each with a government coded GOV; the money and deposit markets live in the first
+        m = Model(); box['m'] = m; tick(); f = Country(m, 'CA', currency='LOC'); tick(); o = Country(m, 'ON', currency='LOC'); tick(); sd.ConsolidatedGovernment(f, 'GOV'); tick()
+        sd.ConsolidatedGovernment(o, 'GOV'); tick()
+        for cn in (f, o):
+            h = Sector(cn, 'HH'); tick(); h.AddVariable('DEM_DEP', 'deposits held', '0.5*F')
+        sd.MoneyMarket(f, issuer_short_code='GOV'); tick(); sd.DepositMarket(f, issuer_short_code='GOV'); m.MaxTime = 1; tick(); m.main()
+
+    scen = [('financial-market-with-two-issuers:deposits', deposit_two_issuers, True), ('financial-market-without-issuer:money', money_no_issuer, True), ('financial-market-without-issuer:deposits', deposit_no_issuer, True),
             ('financial-market-with-two-issuers:money', money_two_issuers, True),
             ('duplicate-country', dup_country, False), ('duplicate-sector', dup_sector, False), ('duplicate-sector-different-kinds', dup_sector_kinds, False),
             ('double-underscore-local-name', underscores_local, False), ('double-underscore-sector-code', underscores_code, True),
